@@ -1,5 +1,6 @@
-(* C12: the unchanged first-pulse test (fx = false): refutation witnesses, and agreement with the
-   repaired code whenever the duration ratios are moderate; necessity of the idle-gap guard *)
+(* C12: the unchanged first-pulse test (fx = false) and the unchanged idle-gap test (gx = false):
+   refutation witnesses, agreement with the repaired code on ordinary inputs, and the residual
+   float-resolution guard of the repaired idle-gap test *)
 From Coq Require Import List QArith Qabs Qround ZArith Bool Lia Lqa.
 From QV Require Import Model.Concat Proofs.ConcatBasics Proofs.ConcatGrid Proofs.ConcatWave Proofs.ConcatAll.
 Import ListNotations.
@@ -15,7 +16,7 @@ Proof.
   split; [cbn; split; [exact H|exact I]|]. left. reflexivity.
 Qed.
 
-Lemma wit_ratio_ok : Forall (chain_ord 0) wit_ratio /\ Forall (gaps_ok 0) wit_ratio.
+Lemma wit_ratio_ok : Forall (chain_ord 0) wit_ratio /\ Forall (gaps_ok (gap_tol false 0) 0) wit_ratio.
 Proof.
   unfold wit_ratio. split; (apply Forall_cons; [|apply Forall_nil]).
   - split; [apply wf_scalar; reflexivity|]. split; [cbn; lra|].
@@ -26,8 +27,8 @@ Proof.
 Qed.
 
 Lemma unfixed_grid_refuted :
-  exists chs outs, Forall (chain_ord 0) chs /\ Forall (gaps_ok 0) chs /\
-                   concatenate_pulses false chs = Some outs /\
+  exists chs outs, Forall (chain_ord 0) chs /\ Forall (gaps_ok (gap_tol false 0) 0) chs /\
+                   concatenate_pulses false false chs = Some outs /\
                    ~ Forall (fun o => strictly_increasing (fst o)) outs.
 Proof.
   exists wit_ratio. eexists. destruct wit_ratio_ok as [A B].
@@ -38,8 +39,8 @@ Qed.
 
 Lemma unfixed_length_refuted :
   exists chs outs i rest ts cs,
-    Forall (chain_ord 0) chs /\ Forall (gaps_ok 0) chs /\
-    concatenate_pulses false chs = Some outs /\
+    Forall (chain_ord 0) chs /\ Forall (gaps_ok (gap_tol false 0) 0) chs /\
+    concatenate_pulses false false chs = Some outs /\
     nth_error chs 0 = Some (i :: rest) /\ nth_error outs 0 = Some (ts, cs) /\
     is_discrete (p_wave i) /\ length ts <> S (length cs).
 Proof.
@@ -50,17 +51,17 @@ Qed.
 
 (* the repaired code on the same input *)
 Example fixed_on_witness :
-  concatenate_pulses true wit_ratio =
+  concatenate_pulses true true wit_ratio =
   Some [([0; (1 # 1000000000) + 0; 10000 + (1 # 1000000000)], [1; 2])].
-Proof. reflexivity. Qed.
+Proof. vm_compute. reflexivity. Qed.
 
-(* ---------- necessity of the guard gaps_ok (repaired code) ---------- *)
+(* ---------- the step-size tolerance of the idle-gap test swallows real gaps (gx = false) ---------- *)
 Definition wit_gap : list pinstr :=
   [mkP 0 (Scalar 16777216 1); mkP 16777217 (Scalar 16777216 2)].
 
-Lemma gap_guard_needed_refuted :
+Lemma step_tolerance_gap_refuted :
   exists chs outs l ts cs t,
-    concatenate_pulses true chs = Some outs /\
+    concatenate_pulses true false chs = Some outs /\
     nth_error chs 0 = Some l /\ nth_error outs 0 = Some (ts, cs) /\
     chain_ord 0 l /\ Forall (fun i => is_discrete (p_wave i)) l /\
     (forall i, In i l -> ~ (p_start i <= t /\ t < p_end i)) /\
@@ -84,9 +85,9 @@ Proof.
   intro E. destruct l as [|j l]; [tauto|]. intros [A B]. split; [lra|exact B].
 Qed.
 
-Lemma unfixed_nf l : forall b lst ms md,
+Lemma unfixed_nf gtl l : forall b lst ms md,
   0 <= lst -> chain_ord lst l -> ratio_ok lst l ->
-  concat_chan false b lst ms md l = concat_chan true false lst ms md l.
+  concat_chan false gtl b lst ms md l = concat_chan true gtl false lst ms md l.
 Proof.
   induction l as [|i rest IH]; intros b lst ms md H0 HC HR; [reflexivity|].
   destruct HC as (Hw & Hle & HC). destruct HR as [HR0 HR].
@@ -95,7 +96,7 @@ Proof.
   assert (E : Qlt_b (Qabs lst) (step_of (p_wave i) * tol) = false).
   { apply Qlt_b_false. rewrite Qabs_pos by exact H0. exact HR0. }
   rewrite E.
-  destruct (if Qlt_b (step_of (p_wave i) * tol) (Qabs (p_start i - lst))
+  destruct (if Qlt_b (gtl (step_of (p_wave i))) (Qabs (p_start i - lst))
             then idle_tlist m (p_start i) lst (step_of (p_wave i)) else Some []) as [idl|]; [|reflexivity].
   destruct (wf_exec (p_wave i) (p_start i) Hw) as (Ene & Einc & Elast).
   rewrite (last_opt_last _ (p_start i) Ene).
@@ -114,8 +115,8 @@ Definition moderate (l : list pinstr) : Prop :=
   | i :: rest => chain_ord 0 l /\ ratio_ok (p_end i) rest
   end.
 
-Lemma unfixed_chan l ms md :
-  moderate l -> concat_chan false true 0 ms md l = concat_chan true true 0 ms md l.
+Lemma unfixed_chan gtl l ms md :
+  moderate l -> concat_chan false gtl true 0 ms md l = concat_chan true gtl true 0 ms md l.
 Proof.
   destruct l as [|i rest]; [reflexivity|]. intros [HC HR].
   destruct HC as (Hw & Hle & HC).
@@ -126,34 +127,128 @@ Proof.
     assert (0 < step_of (p_wave i) * tol) by (apply Qmult_lt_0_compat; assumption).
     rewrite Qabs_pos by lra. assumption. }
   rewrite E.
-  destruct (if Qlt_b (step_of (p_wave i) * tol) (Qabs (p_start i - 0))
+  destruct (if Qlt_b (gtl (step_of (p_wave i))) (Qabs (p_start i - 0))
             then idle_tlist m (p_start i) 0 (step_of (p_wave i)) else Some []) as [idl|]; [|reflexivity].
   destruct (wf_exec (p_wave i) (p_start i) Hw) as (Ene & Einc & Elast).
   rewrite (last_opt_last _ (p_start i) Ene).
   set (L := last (map (fun x => x + p_start i) (tl (w_ts (p_wave i)))) (p_start i)) in *.
   assert (EL : p_end i == L) by (unfold p_end; lra).
-  rewrite (unfixed_nf rest false L).
+  rewrite (unfixed_nf gtl rest false L).
   - reflexivity.
   - pose proof (wf_wave_end_pos _ Hw). lra.
   - apply chain_ord_eq with (a := p_end i); assumption.
   - apply ratio_ok_eq with (a := p_end i); assumption.
 Qed.
 
-Lemma unfixed_all chs : forall ms md,
-  Forall moderate chs -> concat_all false ms md chs = concat_all true ms md chs.
+Lemma unfixed_all gtl chs : forall ms md,
+  Forall moderate chs -> concat_all false gtl ms md chs = concat_all true gtl ms md chs.
 Proof.
   induction chs as [|c r IH]; intros ms md HF; [reflexivity|].
-  cbn [concat_all]. rewrite (unfixed_chan c ms md (Forall_inv HF)).
-  destruct (concat_chan true true 0 ms md c) as [[[[ts cs] ms1] md1]|]; [|reflexivity].
+  cbn [concat_all]. rewrite (unfixed_chan gtl c ms md (Forall_inv HF)).
+  destruct (concat_chan true gtl true 0 ms md c) as [[[[ts cs] ms1] md1]|]; [|reflexivity].
   rewrite (IH ms1 md1 (Forall_inv_tail HF)). reflexivity.
 Qed.
 
 (* the proposed fix does not change the output on inputs with moderate duration ratios *)
-Lemma fix_is_conservative chs :
-  Forall moderate chs -> concatenate_pulses false chs = concatenate_pulses true chs.
+Lemma fix_is_conservative gx chs :
+  Forall moderate chs -> concatenate_pulses false gx chs = concatenate_pulses true gx chs.
 Proof.
-  intro HF. unfold concatenate_pulses. rewrite (unfixed_all chs None None HF). reflexivity.
+  intro HF. unfold concatenate_pulses.
+  destruct (if gx then resolution chs else Some 0) as [res|]; [|reflexivity].
+  rewrite (unfixed_all (gap_tol gx res) chs None None HF). reflexivity.
 Qed.
+
+(* ---------- the idle-gap repair: conservative, and its residual float-resolution guard ---------- *)
+Lemma gap_test_eq g1 g2 s lst :
+  lst <= s -> 0 <= g1 -> 0 <= g2 ->
+  (s == lst \/ g1 < s - lst) -> (s == lst \/ g2 < s - lst) ->
+  Qlt_b g1 (Qabs (s - lst)) = Qlt_b g2 (Qabs (s - lst)).
+Proof.
+  intros Hle H1 H2 A B.
+  assert (E : Qabs (s - lst) == s - lst) by (apply Qabs_pos; lra).
+  apply Qlt_b_ext. split; intro; destruct A as [A|A]; destruct B as [B|B]; lra.
+Qed.
+
+Lemma idle_fix_nf fx gtl1 gtl2 l :
+  (forall s, 0 < s -> 0 <= gtl1 s) -> (forall s, 0 < s -> 0 <= gtl2 s) ->
+  forall first lst ms md,
+  chain_ord lst l -> gaps_ok gtl1 lst l -> gaps_ok gtl2 lst l ->
+  concat_chan fx gtl1 first lst ms md l = concat_chan fx gtl2 first lst ms md l.
+Proof.
+  intros P1 P2. induction l as [|i rest IH]; intros first lst ms md HC G1 G2; [reflexivity|].
+  destruct HC as (Hw & Hle & HC). destruct G1 as [G1 G1']. destruct G2 as [G2 G2'].
+  cbn [concat_chan].
+  destruct (pgp_wf _ Hw) as (co & m & EP & _). rewrite EP.
+  pose proof (wf_step_pos _ Hw) as Hs.
+  rewrite (gap_test_eq _ _ _ _ Hle (P1 _ Hs) (P2 _ Hs) G1 G2).
+  destruct (if Qlt_b (gtl2 (step_of (p_wave i))) (Qabs (p_start i - lst))
+            then idle_tlist m (p_start i) lst (step_of (p_wave i)) else Some []) as [idl|]; [|reflexivity].
+  destruct (wf_exec (p_wave i) (p_start i) Hw) as (Ene & Einc & Elast).
+  rewrite (last_opt_last _ (p_start i) Ene).
+  set (L := last (map (fun x => x + p_start i) (tl (w_ts (p_wave i)))) (p_start i)) in *.
+  assert (EL : p_end i == L) by (unfold p_end; lra).
+  rewrite (IH false L).
+  - reflexivity.
+  - apply chain_ord_eq with (a := p_end i); assumption.
+  - apply gaps_ok_eq with (a := p_end i); assumption.
+  - apply gaps_ok_eq with (a := p_end i); assumption.
+Qed.
+
+Lemma idle_fix_all fx gtl1 gtl2 chs :
+  (forall s, 0 < s -> 0 <= gtl1 s) -> (forall s, 0 < s -> 0 <= gtl2 s) ->
+  Forall (chain_ord 0) chs -> Forall (gaps_ok gtl1 0) chs -> Forall (gaps_ok gtl2 0) chs ->
+  forall ms md, concat_all fx gtl1 ms md chs = concat_all fx gtl2 ms md chs.
+Proof.
+  intros P1 P2. induction chs as [|c r IH]; intros HC G1 G2 ms md; [reflexivity|].
+  cbn [concat_all].
+  rewrite (idle_fix_nf fx gtl1 gtl2 c P1 P2 true 0 ms md (Forall_inv HC) (Forall_inv G1) (Forall_inv G2)).
+  destruct (concat_chan fx gtl2 true 0 ms md c) as [[[[ts cs] ms1] md1]|]; [|reflexivity].
+  rewrite (IH (Forall_inv_tail HC) (Forall_inv_tail G1) (Forall_inv_tail G2) ms1 md1). reflexivity.
+Qed.
+
+(* when every idle gap is absent or above both thresholds, the repaired idle-gap test gives the same arrays *)
+Lemma idle_fix_is_conservative fx chs r :
+  resolution chs = Some r -> 0 <= r ->
+  Forall (chain_ord 0) chs ->
+  Forall (gaps_ok (gap_tol false r) 0) chs -> Forall (gaps_ok (gap_tol true r) 0) chs ->
+  concatenate_pulses fx false chs = concatenate_pulses fx true chs.
+Proof.
+  intros ER Hr HC G1 G2. unfold concatenate_pulses. rewrite ER.
+  rewrite (idle_fix_all fx (gap_tol false 0) (gap_tol true r) chs
+             (gap_tol_false_nonneg 0) (gap_tol_true_nonneg r Hr) HC G1 G2 None None).
+  reflexivity.
+Qed.
+
+(* the repaired test still has a threshold: 1e-14 of the total duration (float resolution). A gap below it
+   is swallowed, so the guard of the waveform theorems cannot be dropped entirely in exact arithmetic *)
+Definition wit_res : list pinstr :=
+  [mkP 0 (Scalar 1 1); mkP (1 + (1 # 1000000000000000)) (Scalar 1 2)].
+
+Lemma resolution_guard_needed_refuted :
+  exists chs outs l ts cs t,
+    concatenate_pulses true true chs = Some outs /\
+    nth_error chs 0 = Some l /\ nth_error outs 0 = Some (ts, cs) /\
+    chain_ord 0 l /\ Forall (fun i => is_discrete (p_wave i)) l /\
+    (forall i, In i l -> ~ (p_start i <= t /\ t < p_end i)) /\
+    ~ eval_step ts cs t == 0.
+Proof.
+  exists [wit_res]. eexists. exists wit_res. eexists. eexists. exists (1 + (1 # 2000000000000000)).
+  split; [vm_compute; reflexivity|]. split; [reflexivity|]. split; [reflexivity|].
+  split; [|split; [|split]].
+  - split; [apply wf_scalar; reflexivity|]. split; [cbn; lra|].
+    split; [apply wf_scalar; reflexivity|]. split; [|exact I].
+    unfold p_end, wave_end. cbn. unfold Qle. cbn. lia.
+  - repeat constructor.
+  - intros i [<-|[<-|[]]]; unfold p_end, wave_end; cbn; intros [H1 H2];
+      unfold Qle, Qlt in *; cbn in *; lia.
+  - vm_compute. discriminate.
+Qed.
+
+(* the repaired code on the witness of step_tolerance_gap_refuted: the gap is honoured *)
+Example idle_fix_on_witness :
+  exists ts cs, concatenate_pulses true true [wit_gap] = Some [(ts, cs)] /\
+                eval_step ts cs (33554433 # 2) == 0.
+Proof. do 2 eexists. split; vm_compute; reflexivity. Qed.
 
 (* moderate is satisfiable *)
 Definition wit_mod : list (list pinstr) := [[mkP 0 (Scalar 1 3); mkP 3 (Scalar 2 5)]].
